@@ -231,6 +231,24 @@ def same_value(a, b):
     return type(a) is type(b) and a == b
 
 
+def plain(x):
+    """A detached plain-data snapshot of a model value (dataclasses -> dicts, any sequence -> list)."""
+    import dataclasses
+    import enum
+    if dataclasses.is_dataclass(x) and not isinstance(x, type):
+        return {f.name: plain(getattr(x, f.name)) for f in dataclasses.fields(x)}
+    if isinstance(x, float):
+        return ("nan",) if math.isnan(x) else (x, math.copysign(1, x))
+    if isinstance(x, (str, bytes, int, bool, type(None), enum.Enum)):
+        return x
+    if isinstance(x, dict):
+        return {k: plain(v) for k, v in x.items()}
+    try:
+        return [plain(y) for y in x]
+    except TypeError:
+        return x
+
+
 def client_conversion_case(seed, n_per_class):
     """What the public client hands out (list_entities_services, subscribe_states, device_info) for wire messages with boundary
     values must be exactly the conversion of those very messages. Returns a list of (path, message class, problem)."""
@@ -491,6 +509,29 @@ def run(rep, tier, seed):
                     nontriv = True
                 if not same(got, exp):
                     rep.violation(f"C14/value:{mn}.{n}", f"{mn}.{n}: wire value {str(wv)[:60]!r} was converted to {str(got)[:60]!r}, expected {str(exp)[:60]!r}", replay)
+            # the model is a snapshot: what the caller does to ITS message afterwards (append to / empty a repeated field, clear and
+            # refill the message for the next entity) does not show in a model converted earlier
+            try:
+                msg2 = pbcls()
+                msg2.CopyFrom(msg)
+                obj2 = mocls.from_pb(msg2)
+                snap = plain(obj2)
+                for fd in msg2.DESCRIPTOR.fields:
+                    if fd.is_repeated and fd.type != 11:
+                        cont = getattr(msg2, fd.name)
+                        if len(cont):
+                            cont.append(cont[0])
+                            cont[0] = cont[0] + "~" if fd.type == 9 else cont[-1]
+                        else:
+                            cont.append("~" if fd.type == 9 else b"~" if fd.type == 12 else 1)
+                changed = [k for k, v in plain(obj2).items() if v != snap[k]] if isinstance(snap, dict) else []
+                msg2.Clear()
+                changed += [k for k, v in plain(obj2).items() if v != snap[k] and k not in changed] if isinstance(snap, dict) else []
+                if changed:
+                    rep.violation(f"C14/value-not-kept:{mn}", f"{mn}.from_pb(msg): after the caller modified / cleared its message the model's field(s) {changed[:4]} changed with it "
+                                  f"({[(snap[k], plain(getattr(obj2, k))) for k in changed][:2]!r:.300}): the model does not hold the values the message had when it was converted", replay)
+            except Exception as e:  # noqa
+                rep.violation(f"C14/value-not-kept:{mn}", f"{mn}: modifying the wire message after conversion raised {type(e).__name__}: {e}", replay)
             # to_dict / from_dict
             try:
                 back = mocls.from_dict(obj.to_dict())
